@@ -17,6 +17,39 @@ type c18Case struct {
 	Config  string   `json:"config"`
 	Feats   []string `json:"features"`
 	HasProm bool     `json:"has_prometheus"`
+	// Extra: files created next to the configuration (directories that a discovery block scans)
+	Extra map[string]string `json:"extra_files,omitempty"`
+}
+
+// c18DiscoveryCases: filepath discovery whose template renders a captured path component into every templated field.
+// Directory names are chosen so that the rendered value is or is not a valid regexp / URI / tag: whatever it is, the
+// accepted configuration must lead to a lint run that ends with reports or an error message, never a crash.
+func c18DiscoveryCases() (out []c18Case) {
+	dirs := []string{"plain", "c++", "a(b", "[z", "x*y", "q?", "back\\slash", "sp ace", "{{", "per%cent"}
+	fields := map[string]string{
+		"include":  "  include = [\"rules/{{ $name }}/.+\"]\n",
+		"exclude":  "  exclude = [\"{{ $name }}\"]\n",
+		"tags":     "  tags = [\"{{ $name }}\"]\n",
+		"failover": "  failover = [\"http://{{ $name }}:9090\"]\n",
+		"headers":  "  headers = { \"X-{{ $name }}\": \"{{ $name }}\" }\n",
+		"uri":      "",
+		"name":     "",
+	}
+	for _, fld := range []string{"include", "exclude", "tags", "failover", "headers", "uri", "name"} {
+		for _, d := range dirs {
+			uri, name := "http://127.0.0.1:1", "prom-static"
+			if fld == "uri" {
+				uri = "http://127.0.0.1:1/{{ $name }}"
+			}
+			if fld == "name" || fld != "uri" {
+				name = "prom-{{ $name }}"
+			}
+			cfg := "discovery {\n  filepath {\n    directory = \"disc\"\n    match = \"(?P<name>[^/]+)/servers\\\\.txt\"\n    template {\n      name = \"" + name + "\"\n      uri = \"" + uri + "\"\n      timeout = \"200ms\"\n    " + strings.ReplaceAll(fields[fld], "\n", "\n    ") + "}\n  }\n}\n"
+			out = append(out, c18Case{Config: cfg, Feats: []string{"discovery.filepath.template." + fld + ":dir=" + d}, HasProm: true,
+				Extra: map[string]string{"disc/" + d + "/servers.txt": "x\n", "disc/plain/servers.txt": "x\n"}})
+		}
+	}
+	return out
 }
 
 type c18Outcome struct {
@@ -127,7 +160,7 @@ func runC18(c *core.Ctx) int {
 		if b, err := os.ReadFile(filepath.Join(c.Replay, "pint.hcl")); err == nil {
 			cs.Config = string(b)
 		}
-		o := c18Check(c, cs, nil)
+		o := c18Check(c, cs, cs.Extra)
 		fmt.Printf("REPLAY accepted=%v violations=%d\n", o.accepted, len(o.viol))
 		for _, v := range o.viol {
 			fmt.Println("REPLAY violated:", v.Sig, v.What)
@@ -149,6 +182,7 @@ func runC18(c *core.Ctx) int {
 	for _, s := range c18HandWritten() {
 		cases = append(cases, c18Case{Config: s, Feats: []string{"handwritten"}})
 	}
+	cases = append(cases, c18DiscoveryCases()...)
 	for i := 0; len(cases) < n; i++ {
 		r := c.Rand("c18", i)
 		o := gen.CfgOpts{MaxRules: 4, PromURIs: []string{"http://127.0.0.1:1", "http://127.0.0.1:1/prefix"}}
@@ -160,8 +194,14 @@ func runC18(c *core.Ctx) int {
 	}
 	core.Parallel(len(cases), 16, func(i int) {
 		cs := cases[i]
-		o := c18Check(c, cs, nil)
+		o := c18Check(c, cs, cs.Extra)
 		run.Eval(1)
+		if len(cs.Extra) > 0 {
+			run.Count("discovery_template_cases", 1)
+			if o.accepted {
+				run.Count("discovery_template_cases_accepted_at_load", 1)
+			}
+		}
 		if o.inconc != "" {
 			run.Inconclusive(o.inconc)
 		}
